@@ -31,7 +31,7 @@ func init() {
 		modes: func(tier string, seed int64) []modeSpec {
 			n := 480
 			if tier == "thorough" {
-				n = 12000
+				n = 40000
 			}
 			return []modeSpec{
 				{name: "dl", n: n, perChild: n / 16, timeout: 20 * time.Minute},
